@@ -422,8 +422,10 @@ class DiffPolyKernel(DiffKernelMixin, Kernel):
         if Y is None:
             Y = X
         k = 1.0
-        dk = 0.0
         dot1 = (self.gamma * X).dot(Y.T)
+        # array from the start, so that order <= 1 (where dotn is still the
+        # scalar 1 when it is added) also yields an (nx, ny) prefactor
+        dk = np.zeros(dot1.shape, dtype=dot1.dtype)
         dotn = 1
         for n in range(1, self.order + 1):
             if self.factorial:
